@@ -141,7 +141,7 @@ class Kernel:
         self.at(self.now + int(d_us), fn, *args)
 
     # ------------------------------------------------------------- processes
-    def spawn(self, name, role, argv, addrs, env=None, san_env=None, stdin_data=None):
+    def spawn(self, name, role, argv, addrs, env=None, san_env=None, stdin_data=None, stdin_closed=False):
         p = Proc(name, role)
         p.addrs = list(addrs)
         a, b = socket.socketpair(socket.AF_UNIX, socket.SOCK_STREAM)
@@ -172,8 +172,11 @@ class Kernel:
             os.write(wfd, bytes(stdin_data)[:60000])
             os.close(wfd)
             stdin = rfd
+        # stdin_closed: the program is started with descriptor 0 closed (init scripts, cron, "<&-"): the first descriptor it
+        # opens itself will be number 0
         p.popen = subprocess.Popen(argv, env=e, pass_fds=(b.fileno(),), stdin=stdin,
-                                   stdout=subprocess.DEVNULL, stderr=stderr, close_fds=True)
+                                   stdout=subprocess.DEVNULL, stderr=stderr, close_fds=True,
+                                   preexec_fn=(lambda: os.close(0)) if stdin_closed else None)
         if stdin_data is not None:
             os.close(rfd)
         if stderr is not subprocess.DEVNULL:
